@@ -45,7 +45,7 @@ def language_no_prefix(L: Set[str]) -> Set[str]:
     """Returns all words w in L such that no proper prefix of w is in L"""
 
     def has_prefix_in_L(w: str) -> bool:
-        return any(w[i:] in L for i in range(1, len(w)))
+        return any(w[:i] in L for i in range(len(w)))
 
     return set(w for w in L if not has_prefix_in_L(w))
 
